@@ -792,6 +792,197 @@ example : (loopRes [.pend, .acc]).fin = .completed := by decide
 example : (arun true [.add 0 10, AOp.ofScript [.pend, .pend] [], .add 0 25, AOp.ofScript [.acc] []]).sentTotal 0 = 25 := by
   decide
 
+/-! ## The reporting loop: reports do not overlap -/
+
+theorem runFrom_append (fixed : Bool) (st : St) (a b : List Op) :
+    runFrom fixed st (a ++ b) = runFrom fixed (runFrom fixed st a) b := by
+  simp [runFrom, List.foldl_append]
+
+theorem startIter_trace (fixed : Bool) (l : LSt) :
+    (startIter fixed l).l.st = runFrom fixed l.st (startIter fixed l).trace := by
+  unfold startIter
+  split
+  · rename_i st1 r h
+    have e : st1 = (step fixed l.st .report).1 := by rw [h]
+    split
+    · split <;> simp [runFrom, e]
+    · simp [runFrom, e]
+  · rename_i st1 o hne h
+    have e : st1 = (step fixed l.st .report).1 := by rw [h]
+    simp [runFrom, e]
+
+theorem drain_trace (fixed : Bool) (l : LSt) :
+    (drain fixed l).l.st = runFrom fixed l.st (drain fixed l).trace := by
+  unfold drain
+  split
+  · exact startIter_trace fixed _
+  · simp [runFrom]
+
+theorem andThen_trace (fixed : Bool) (st0 : St) (a : LRes) (f : LSt → LRes)
+    (ha : a.l.st = runFrom fixed st0 a.trace) (hf : ∀ l, (f l).l.st = runFrom fixed l.st (f l).trace) :
+    (a.andThen f).l.st = runFrom fixed st0 (a.andThen f).trace := by
+  simp only [LRes.andThen, runFrom_append, ← ha]
+  exact hf _
+
+/-- every loop-level operation is the sequence of tracker calls recorded in its trace -/
+theorem lstep_trace (fixed : Bool) (l : LSt) (op : LOp) :
+    (lstep fixed l op).l.st = runFrom fixed l.st (lstep fixed l op).trace := by
+  cases op with
+  | add s v => simp [lstep, runFrom]
+  | tick a =>
+    simp only [lstep]
+    split
+    · exact startIter_trace fixed _
+    · simp [runFrom]
+  | other => simp only [lstep]; split <;> simp [runFrom]
+  | confirm a =>
+    simp only [lstep]
+    split
+    · simp [runFrom]
+    · split
+      · simp [runFrom]
+      · exact andThen_trace fixed _ _ _ (by simp [runFrom]) (drain_trace fixed)
+      · split
+        · simp [runFrom]
+        · exact andThen_trace fixed _ _ _ (by simp [runFrom]) (drain_trace fixed)
+
+theorem lrunFrom_trace (fixed : Bool) (ops : List LOp) :
+    ∀ l, (lrunFrom fixed l ops).st = runFrom fixed l.st (ltrace fixed l ops) := by
+  induction ops with
+  | nil => intro l; rfl
+  | cons o r ih =>
+    intro l
+    have h := ih (lstep fixed l o).l
+    simp only [lrunFrom, List.foldl_cons, ltrace, runFrom_append] at h ⊢
+    rw [h, lstep_trace]
+
+/-- what the loop's control state says about the tracker: at the select no report is held; while
+the loop is inside `sendUsageReport` exactly the report it built is held (and, once accepted, that
+report is what occupies the client's slot). -/
+def LInv (l : LSt) : Prop :=
+  l.st.spurious = false ∧
+  match l.phase with
+  | .idle => l.st.held = none
+  | .waitOwn r => l.st.held = some r
+  | .waitOther r => l.st.held = some r
+
+theorem startIter_inv (fixed : Bool) {l : LSt} (hs : l.st.spurious = false) (hh : l.st.held = none)
+    (hp : l.phase = .idle) : LInv (startIter fixed l).l := by
+  unfold startIter
+  split
+  · rename_i st1 r h
+    have hr : (step fixed l.st .report).2 = .report r := by rw [h]
+    have e : st1 = (step fixed l.st .report).1 := by rw [h]
+    obtain ⟨k1, k2⟩ := report_ok hr
+    rw [← e] at k1 k2
+    split
+    · split
+      · exact ⟨by simp [k2, hs], by simp [k1]⟩
+      · exact ⟨by simp [step, giveUp, k2, hs], by simp [hp, step, giveUp]⟩
+    · exact ⟨by simp [k2, hs], by simp [k1]⟩
+  · rename_i st1 o hne h
+    have e : (step fixed l.st .report).1 = l.st := by
+      apply report_err
+      intro r hr
+      rw [h] at hr
+      exact hne r hr
+    have e1 : st1 = l.st := by rw [← e, h]
+    exact ⟨by simp [e1, hs], by simp [hp, e1, hh]⟩
+
+theorem drain_inv (fixed : Bool) {l : LSt} (hs : l.st.spurious = false) (hh : l.st.held = none)
+    (hp : l.phase = .idle) : LInv (drain fixed l).l := by
+  unfold drain
+  split
+  · exact startIter_inv fixed (by simpa using hs) (by simpa using hh) (by simpa using hp)
+  · exact ⟨hs, by simp [hp, hh]⟩
+
+theorem lstep_inv (fixed : Bool) {l : LSt} (h : LInv l) (op : LOp) : LInv (lstep fixed l op).l := by
+  obtain ⟨hs, hph⟩ := h
+  cases op with
+  | add s v =>
+    have hk : (step fixed l.st (.add s v)).1.held = l.st.held ∧
+        (step fixed l.st (.add s v)).1.spurious = l.st.spurious := by
+      simp only [step, addReading]; split <;> exact ⟨rfl, rfl⟩
+    refine ⟨by simp [lstep, hk.2, hs], ?_⟩
+    simp only [lstep]
+    cases hp : l.phase <;> simp only [hp] at hph ⊢ <;> rw [hk.1] <;> exact hph
+  | tick a =>
+    simp only [lstep]
+    cases hp : l.phase with
+    | idle =>
+      simp only [hp] at hph ⊢
+      exact startIter_inv fixed (by simpa using hs) (by simpa using hph) (by simp)
+    | waitOwn r => simp only [hp] at hph ⊢; exact ⟨hs, by simp [hph]⟩
+    | waitOther r => simp only [hp] at hph ⊢; exact ⟨hs, by simp [hph]⟩
+  | other =>
+    simp only [lstep]
+    split
+    · exact ⟨hs, by simpa using hph⟩
+    · exact ⟨hs, hph⟩
+  | confirm a =>
+    simp only [lstep]
+    split
+    · exact ⟨hs, by simpa using hph⟩
+    · cases hp : l.phase with
+      | idle => simp only [hp] at hph ⊢; exact ⟨hs, by simp [hph]⟩
+      | waitOwn r =>
+        simp only [hp] at hph ⊢
+        simp only [LRes.andThen]
+        apply drain_inv fixed
+        · simp [step, completeSend, hph, hs]
+        · simp [step, completeSend, hph]
+        · rfl
+      | waitOther r =>
+        simp only [hp] at hph ⊢
+        split
+        · exact ⟨hs, by simp [hph]⟩
+        · simp only [LRes.andThen]
+          apply drain_inv fixed
+          · simp [step, giveUp, hs]
+          · simp [step, giveUp]
+          · rfl
+
+theorem lrunFrom_inv (fixed : Bool) (ops : List LOp) : ∀ l, LInv l → LInv (lrunFrom fixed l ops) := by
+  induction ops with
+  | nil => intro l h; exact h
+  | cons o r ih => intro l h; exact ih _ (lstep_inv fixed h o)
+
+/-- **loop_reports_do_not_overlap** — the reporting loop is sequential: in every history of ticks
+(remembered or dropped while the loop is busy), confirmations that come any number of ticks late,
+foreign messages occupying the client's slot, send errors and concurrent `Add`s, the loop is back at
+its select only with no report held, it builds a report only there, and `completeSend` is never
+called for anything but the one report it holds.  (`NewReport` is called by `startIter` only, and
+`startIter` is reached only from phase `idle`.) -/
+theorem loop_reports_do_not_overlap (fixed : Bool) (ops : List LOp) :
+    ((lrun fixed ops).phase = .idle → (lrun fixed ops).st.held = none) ∧
+    (∀ r, ((lrun fixed ops).phase = .waitOwn r ∨ (lrun fixed ops).phase = .waitOther r) →
+        (lrun fixed ops).st.held = some r) ∧
+    (lrun fixed ops).st.spurious = false := by
+  have h := lrunFrom_inv fixed ops {} ⟨rfl, rfl⟩
+  obtain ⟨h1, h2⟩ := h
+  refine ⟨?_, ?_, h1⟩
+  · intro hp; simp only [lrun] at hp ⊢; rw [hp] at h2; exact h2
+  · intro r hp
+    simp only [lrun] at hp ⊢
+    rcases hp with hp | hp <;> (rw [hp] at h2; exact h2)
+
+/-- **conservation for the loop** (repaired tracker): whatever the ticks, delays and answers, what
+the client accepted and confirmed plus what is waiting is the counters' growth. -/
+theorem loop_conservation (ops : List LOp) (s : Nat) :
+    (lrun true ops).st.sentTotal s
+      = (lastReading (ltrace true {} ops) s : Int) - (lrun true ops).st.waiting s := by
+  have e : (lrun true ops).st = run true (ltrace true {} ops) := lrunFrom_trace true ops {}
+  have hs := (loop_reports_do_not_overlap true ops).2.2
+  rw [e] at hs ⊢
+  exact conservation_fixed _ s hs
+
+-- a confirmation that comes two ticks late: the second tick is dropped, the remembered one starts
+-- the next report right after completeSend; nothing is counted twice
+example : (lrun true [.add 0 100, .tick true, .add 0 250, .tick true, .add 0 300, .tick true,
+    .confirm true, .confirm true]).st.sentTotal 0 = 300 := by decide
+example : ltrace true {} [.add 0 100, .tick true, .add 0 250, .tick true, .confirm true, .confirm true]
+    = [.add 0 100, .report, .add 0 250, .sent, .report, .sent] := by decide
+
 /-! ## Non-vacuity: concrete histories evaluated by the kernel -/
 
 -- the witness is a history of the agent, satisfies Monotone, and loses 10 of 30
